@@ -151,6 +151,7 @@ def execute(plan):
     damaged_seen = False
     skipped_seen = False
     with World(plugins=plan["plugins"], registry=plan["registry"]) as w:
+        w.long_opts = bool(plan.get("long_opts"))
         for p in plan["pels"]:
             w.put("D/" + p["name"], datas[p["name"]])
         host = w.host
